@@ -1,7 +1,7 @@
 (* C13 / C14: commands act on the sub-tree they are given (no absolute location anywhere), writes are confined to
    the ascmhl folders of the loaded histories, the media tree is never altered. *)
 From Coq Require Import Lia.
-From MHL Require Import Model.World Gen.Generated Proofs.BaseFacts Proofs.TreeFacts Proofs.CommitFacts.
+From MHL Require Import Model.World Gen.Generated Proofs.BaseFacts Proofs.TreeFacts Proofs.CommitFacts Proofs.LoadFacts.
 
 Section WorldFacts.
   Variable C : Type.
@@ -112,3 +112,49 @@ Section WorldFacts.
     - unfold P. cbn. split; [reflexivity|]. split; [intros op []|intros x []].
   Qed.
 End WorldFacts.
+
+(* C14 for the composed create commands: whatever the options and the outcome, the media tree is the same afterwards and
+   every write operation concerns the ascmhl folder of a history of the tree *)
+Section CreateConfined.
+  Variable Hb : fmt -> bytes -> bytes.
+  Variable matches : list text -> text -> bool.
+  Variable C : Type.
+  Variable cdig : C -> text.
+  Variable ser : gen -> C.
+
+  Theorem create_folder_confined t req no_dh dr ip ifl : wf_tree C t ->
+    let run := create_folder Hb matches C cdig ser t req no_dh dr ip ifl in
+    erase C (fst run) = erase C t /\
+    (forall hs, load C cdig t = inl hs -> ops_in_scope hs (o_ops (snd run)) /\
+                forall x, In x (o_written (snd run)) -> exists h, In h hs /\ fst x = lh_root h) /\
+    (forall e, load C cdig t = inr e -> fst run = t /\ o_ops (snd run) = [] /\ o_written (snd run) = []).
+  Proof.
+    intros Hw. cbn zeta. unfold create_folder. destruct (load C cdig t) as [hs|e] eqn:Hl.
+    - pose proof (LoadFacts.load_roots_exist C cdig t hs Hw Hl) as Hex.
+      destruct (fold_left _ _ _) as [sess0 fails]. cbn [fst snd o_ops o_written].
+      match goal with |- context [commit C cdig ser hs InPlace t ?s ?sp] =>
+        destruct (commit_confined C cdig ser hs InPlace t s sp Hex) as [He [Ho Hwr]] end.
+      split; [|split].
+      + destruct (dr_abort _); [reflexivity|exact He].
+      + intros hs' [= <-]. split.
+        * destruct (dr_abort _); [intros op []|exact Ho].
+        * destruct (dr_abort _); [intros x []|exact Hwr].
+      + intros e [=].
+    - cbn [fst snd]. split; [reflexivity|]. split; [intros hs [=]|]. intros e' _. repeat split; reflexivity.
+  Qed.
+
+  Theorem create_sf_confined t req sf ip ifl : wf_tree C t ->
+    let run := create_sf Hb matches C cdig ser t req sf ip ifl in
+    erase C (fst run) = erase C t /\
+    (forall hs, load C cdig t = inl hs -> ops_in_scope hs (o_ops (snd run)) /\
+                forall x, In x (o_written (snd run)) -> exists h, In h hs /\ fst x = lh_root h).
+  Proof.
+    intros Hw. cbn zeta. unfold create_sf. destruct (load C cdig t) as [hs|e] eqn:Hl.
+    - pose proof (LoadFacts.load_roots_exist C cdig t hs Hw Hl) as Hex.
+      destruct (fold_left _ _ _) as [[sess fails] done]. cbn [fst snd o_ops o_written].
+      match goal with |- context [commit C cdig ser hs InPlace t ?s ?sp] =>
+        destruct (commit_confined C cdig ser hs InPlace t s sp Hex) as [He [Ho Hwr]] end.
+      split; [exact He|]. intros hs' [= <-]. split; assumption.
+    - cbn [fst snd]. split; [reflexivity|]. intros hs [=].
+  Qed.
+End CreateConfined.
